@@ -44,18 +44,23 @@ let pspawned : (int, unit) Hashtbl.t = Hashtbl.create 16
 let str_val = function None -> "-" | Some z -> string_of_int (int_of_z z)
 let code_int = function OK -> 0 | OPFAIL -> -7
 
-let print_words () =
-  for w = 0 to !nw - 1 do
-    let ro = lookup (n_of_int w) !st.st_febs in
-    let present, full, q = match ro with
-      | None -> 0, 1, [ []; []; []; [] ]
-      | Some r -> 1, (if r.r_full then 1 else 0), [ r.r_EFQ; r.r_FEQ; r.r_FFQ; r.r_FFWQ ] in
-    let lst l = "[" ^ String.concat "." (List.map (fun x -> string_of_int (int_of_n x.w_tid) ^ (if x.w_nascent then "n" else "")) l) ^ "]" in
-    Printf.printf " W%d=%d,%d,%d,%d,%s" w present full full (int_of_z (memget (n_of_int w) !st)) (String.concat "," (List.map lst q))
-  done
+let print_word w =
+  let ro = lookup (n_of_int w) !st.st_febs in
+  let present, full, q = match ro with
+    | None -> 0, 1, [ []; []; []; [] ]
+    | Some r -> 1, (if r.r_full then 1 else 0), [ r.r_EFQ; r.r_FEQ; r.r_FFQ; r.r_FFWQ ] in
+  let lst l = "[" ^ String.concat "." (List.map (fun x -> string_of_int (int_of_n x.w_tid) ^ (if x.w_nascent then "n" else "")) l) ^ "]" in
+  Printf.printf " W%d=%d,%d,%d,%d,%s" w present full full (int_of_z (memget (n_of_int w) !st)) (String.concat "," (List.map lst q))
+
+(* small scripts: every word; many-words scripts: the touched word, its neighbour, one word chosen by the step number *)
+let print_words touched =
+  if !nw <= 6 then for w = 0 to !nw - 1 do print_word w done
+  else begin
+    print_word touched; print_word ((touched + 1) mod !nw); print_word ((17 * touched + !step_no) mod !nw)
+  end
 
 (* run one model step and the cascade of return-value writes of launched precondition tasks *)
-let do_step (f : state -> state * event list) caller =
+let do_step (f : state -> state * event list) caller touched =
   let released = ref [] and launched = ref [] and callres = ref None and special = ref None in
   let queue = Queue.create () in
   let absorb first evs =
@@ -90,7 +95,7 @@ let do_step (f : state -> state * event list) caller =
     print_string " |";
     List.iter (fun k -> Printf.printf " %d" k) (List.sort compare !launched);
     print_string " |";
-    print_words ();
+    print_words touched;
     print_newline ()
 
 let () =
@@ -109,8 +114,8 @@ let () =
     | ["o"; tid; w; name; a1; a2] ->
       let tid = int_of_string tid and w = int_of_string w in
       let o = op_of name (int_of_string a1) (int_of_string a2) in
-      if tid >= !nt then do_step (fun s -> step_ext tbl s (n_of_int tid) (n_of_int w) o) tid
-      else do_step (fun s -> step s (n_of_int tid) (GWord (n_of_int w, o))) tid
+      if tid >= !nt then do_step (fun s -> step_ext tbl s (n_of_int tid) (n_of_int w) o) tid w
+      else do_step (fun s -> step s (n_of_int tid) (GWord (n_of_int w, o))) tid w
     | "p" :: tid :: k :: _variant :: retmode :: retw :: retval :: _n :: pcs ->
       let tid = int_of_string tid and k = 100 + int_of_string k in
       let rm = int_of_string retmode and rw = int_of_string retw and rv = int_of_string retval in
@@ -127,7 +132,7 @@ let () =
               let e1' = List.filter (function Ret (t, _, _) when int_of_n t = tid -> false | _ -> true) e1 in
               let (s2, e2) = step s1 (n_of_int tid) (GSpawn (n_of_int k, pcs)) in
               (s2, e2 @ e1')
-          end else step s (n_of_int tid) (GSpawn (n_of_int k, pcs))) tid
+          end else step s (n_of_int tid) (GSpawn (n_of_int k, pcs))) tid 0
     | ["E"] ->
       let items = List.concat (List.map (fun (a, r) -> List.map (fun x -> (int_of_n a, int_of_n x.w_tid)) (waiters_of r)) !st.st_febs) in
       print_string "e";
